@@ -462,16 +462,10 @@ fn cones(ir: &[IrNode], ins: &[IOStatus], p: usize) -> Option<Cones> {
                 }
                 h = false;
             }
-            Operation::Random(t) => {
-                if *t != array_type(vec![128], BIT) {
-                    // a value drawn by some party: unknown to p unless p is its first sender / sole user
-                    let id = *var_ids.entry((i, u64::MAX)).or_insert_with(|| {
-                        n_vars += 1;
-                        n_vars - 1
-                    });
-                    v.insert(id);
-                    o = Some(id);
-                }
+            Operation::Random(_) => {
+                // PRF keys carry no ring value; any other Random node is treated as KNOWN to every
+                // observer (it can never serve as a pivot): which party draws it is not recorded in
+                // the graph, and a value the observer drew itself is no mask for it.
             }
             _ => {}
         }
@@ -499,7 +493,13 @@ fn flatten(ir: &[IrNode], n: usize, neg: bool, ty: &Type, out: &mut Vec<(bool, u
 }
 
 /// Some(certificate description) if the discipline holds for observer p, None otherwise
-fn discipline_for(ir: &[IrNode], ins: &[IOStatus], p: usize) -> std::result::Result<(usize, usize), String> {
+pub struct Certificate {
+    /// (message node, pivot tape variable), LAST message first
+    pub pivoted: Vec<(usize, usize)>,
+    pub computable: Vec<usize>,
+}
+
+fn discipline_for(ir: &[IrNode], ins: &[IOStatus], p: usize) -> std::result::Result<Certificate, String> {
     let c = cones(ir, ins, p).ok_or_else(|| "PRF key is not a Random/NOP chain".to_owned())?;
     // messages delivered to p
     let mut msgs: Vec<usize> = vec![];
@@ -508,12 +508,12 @@ fn discipline_for(ir: &[IrNode], ins: &[IOStatus], p: usize) -> std::result::Res
             msgs.push(i);
         }
     }
-    let mut computable = 0;
+    let mut computable: Vec<usize> = vec![];
     // (message, candidate pivots)
     let mut open: Vec<(usize, Vec<usize>)> = vec![];
     for m in msgs {
         if c.vars[m].is_empty() && !c.hidden[m] {
-            computable += 1;
+            computable.push(m);
             continue;
         }
         if matches!(ir[m].ty, Type::Tuple(_) | Type::Vector(_, _) | Type::NamedTuple(_)) {
@@ -535,20 +535,21 @@ fn discipline_for(ir: &[IrNode], ins: &[IOStatus], p: usize) -> std::result::Res
         }
         open.push((m, cands));
     }
-    let n_piv = open.len();
+    let mut pivoted: Vec<(usize, usize)> = vec![];
     // order search: pick the LAST message among the remaining ones
     while !open.is_empty() {
         let mut pick = None;
         'outer: for (i, (_, cands)) in open.iter().enumerate() {
             for v in cands {
                 if open.iter().enumerate().all(|(j, (m2, _))| j == i || !c.vars[*m2].contains(v)) {
-                    pick = Some(i);
+                    pick = Some((i, *v));
                     break 'outer;
                 }
             }
         }
         match pick {
-            Some(i) => {
+            Some((i, v)) => {
+                pivoted.push((open[i].0, v));
                 open.remove(i);
             }
             None => {
@@ -557,7 +558,61 @@ fn discipline_for(ir: &[IrNode], ins: &[IOStatus], p: usize) -> std::result::Res
             }
         }
     }
-    Ok((computable, n_piv))
+    Ok(Certificate { pivoted, computable })
+}
+
+/// the compiled graph as `List CCV.Mask.Node`, classified for observer p
+fn export_mask(ir: &[IrNode], ins: &[IOStatus], p: usize) -> Option<String> {
+    let c = cones(ir, ins, p)?;
+    let holders = ir_key_holders(ir);
+    let mut s = String::new();
+    let mut input_id = 0;
+    let mut known_id = 0;
+    let mut tags: Vec<String> = vec![];
+    for (i, n) in ir.iter().enumerate() {
+        let same = |d: u64| ir[d as usize].ty == n.ty;
+        let mut deps: Vec<u64> = n.deps.clone();
+        let kind = match &n.op {
+            Operation::Input(_) => {
+                input_id += 1;
+                deps.clear();
+                if c.hidden[i] { format!(".hid {}", input_id - 1) } else { format!(".own {}", input_id - 1) }
+            }
+            Operation::PRF(_, _) | Operation::PermutationFromPRF(_, _) => {
+                deps.clear();
+                match c.own[i] {
+                    Some(v) => format!(".tapeU {}", v),
+                    None => {
+                        // known mask: identified by (key node, counter)
+                        let k = ir_key_of(ir, n.deps[0] as usize)?;
+                        let _ = holders.get(&k);
+                        known_id += 1;
+                        format!(".tapeK {}", 1_000_000 * (k + 1) + match &n.op { Operation::PRF(iv, _) | Operation::PermutationFromPRF(iv, _) => *iv as usize, _ => 0 } + 0 * known_id)
+                    }
+                }
+            }
+            Operation::Random(_) => {
+                deps.clear();
+                format!(".tapeK {}", 900_000_000 + i)
+            }
+            Operation::NOP if same(n.deps[0]) => ".nop".to_owned(),
+            Operation::Add if same(n.deps[0]) && same(n.deps[1]) => ".add".to_owned(),
+            Operation::Subtract if same(n.deps[0]) && same(n.deps[1]) => ".sub".to_owned(),
+            op => {
+                let key = format!("{:?}", op);
+                let tag = match tags.iter().position(|t| *t == key) {
+                    Some(x) => x,
+                    None => {
+                        tags.push(key);
+                        tags.len() - 1
+                    }
+                };
+                format!(".op {}", tag)
+            }
+        };
+        s += &format!("  ⟨{}, [{}]⟩{}\n", kind, deps.iter().map(|d| d.to_string()).collect::<Vec<_>>().join(", "), if i + 1 == ir.len() { "" } else { "," });
+    }
+    Some(s)
 }
 
 pub fn discipline_stream(run: &mut Run) {
@@ -594,10 +649,10 @@ pub fn discipline_stream(run: &mut Run) {
             }
             run.oracle_case(&format!("discipline {} observer {}", descr, p), true);
             match discipline_for(&ir, &ins, p) {
-                Ok((comp, piv)) => {
+                Ok(cert) => {
                     run.count(&format!("discipline:proved:{}", fam.name));
-                    run.count_n("discipline:messages-computable", comp as u64);
-                    run.count_n("discipline:messages-pivoted", piv as u64);
+                    run.count_n("discipline:messages-computable", cert.computable.len() as u64);
+                    run.count_n("discipline:messages-pivoted", cert.pivoted.len() as u64);
                 }
                 Err(why) => {
                     if fam.name == "arith" || fam.ops.iter().all(|o| ["Add", "Subtract", "Multiply", "Sum", "Get", "GetSlice", "Reshape", "PermuteAxes", "Stack", "Concatenate", "CumSum", "CreateTuple/TupleGet", "Matmul", "Dot", "Gemm"].contains(&o.as_str())) {
@@ -609,4 +664,104 @@ pub fn discipline_stream(run: &mut Run) {
             }
         }
     }
+}
+
+
+/// (T) export classified graphs + certificates of a fixed corpus; Lean decides `discOk ∧ compOk`.
+pub fn gen(run: &mut Run, out_dir: &str) {
+    use std::fmt::Write as _;
+    let mut rng = Rng::new(0xC03, "C03/gen");
+    let n_graphs = run.tier.scale(30, 120);
+    let max_nodes = run.tier.scale(160, 400);
+    let chunk = 5;
+    let header = "import CCV.Model.Mask\nset_option maxRecDepth 1000000\nnamespace CCV.Generated.C03\nopen CCV.Mask\n\n";
+    let mut files: Vec<String> = vec![];
+    let mut cur = String::new();
+    let mut in_cur = 0;
+    let mut obligations = vec![];
+    let mut k = 0;
+    let mut attempts = 0;
+    while k < n_graphs && attempts < n_graphs * 40 {
+        attempts += 1;
+        let fam = match catch(|| if attempts % 4 == 0 { tensor_family(&mut rng, 3) } else { arith_family(&mut rng, 5) }) {
+            Ok(Ok(f)) => f,
+            _ => continue,
+        };
+        let ins: Vec<IOStatus> = fam.in_types.iter().map(|_| gen_status(&mut rng)).collect();
+        if ins.iter().any(|s| matches!(s, IOStatus::Shared)) {
+            continue;
+        }
+        let outs = gen_outputs(&mut rng);
+        let mode = rng.below(3) as u8;
+        let cc = match catch(|| compile(&fam.ctx, &ins, &outs, mode)) {
+            Ok(Ok(c)) => c,
+            _ => continue,
+        };
+        let (ir, _out) = match cc.get_main_graph().and_then(|g| ir_of_graph(&g)) {
+            Ok(x) => x,
+            _ => continue,
+        };
+        if ir.len() > max_nodes {
+            continue;
+        }
+        for p in 0..3usize {
+            if outs.iter().any(|o| *o == IOStatus::Party(p as u64)) {
+                continue;
+            }
+            if !ins.iter().any(|s| matches!(s, IOStatus::Party(o) if *o as usize != p)) {
+                continue;
+            }
+            // only families for which the discipline is known to be provable are in the corpus
+            if fam.name != "arith" {
+                if discipline_for(&ir, &ins, p).is_err() {
+                    continue;
+                }
+            }
+            let cert = match discipline_for(&ir, &ins, p) {
+                Ok(c) => c,
+                // arithmetic family: export anyway with a best-effort (empty) certificate so that the
+                // obligation fails visibly
+                Err(_) => Certificate { pivoted: vec![], computable: vec![] },
+            };
+            let nodes = match export_mask(&ir, &ins, p) {
+                Some(s) => s,
+                None => continue,
+            };
+            // every message delivered to p must be covered by the certificate
+            let delivered: Vec<usize> = (0..ir.len()).filter(|i| ir[*i].sends.iter().any(|(_, r)| *r as usize == p)).collect();
+            let covered = delivered.iter().all(|m| cert.computable.contains(m) || cert.pivoted.iter().any(|(x, _)| x == m));
+            let name = format!("v{}", k);
+            let cfg = config_name(&ins, &outs, mode);
+            writeln!(cur, "/-- {} [{}] {} ; observer party {} ; {} nodes ; messages delivered at nodes {:?} -/", fam.name, fam.descr.replace("-/", ""), cfg, p, ir.len(), delivered).unwrap();
+            writeln!(cur, "def {} : List Node := [\n{}]", name, nodes).unwrap();
+            writeln!(cur, "def {}_cert : Cert := [{}]", name, cert.pivoted.iter().map(|(m, v)| format!("({}, {})", m, v)).collect::<Vec<_>>().join(", ")).unwrap();
+            writeln!(cur, "def {}_comp : List Nat := [{}]", name, cert.computable.iter().map(|m| m.to_string()).collect::<Vec<_>>().join(", ")).unwrap();
+            writeln!(cur, "def {}_delivered : List Nat := [{}]", name, delivered.iter().map(|m| m.to_string()).collect::<Vec<_>>().join(", ")).unwrap();
+            writeln!(cur, "theorem {}_ok : (discOk {} {}_cert && compOk {} {}_comp && {}_delivered.all (fun m => {}_comp.contains m || {}_cert.any (fun c => c.1 == m))) = true := by decide +kernel\n", name, name, name, name, name, name, name, name).unwrap();
+            let _ = covered;
+            obligations.push(serde_json::json!({"name": format!("CCV.Generated.C03.{}_ok", name),
+                "says": format!("mask discipline certificate accepted for observer {} of the compiled graph of {} [{}] {} ({} nodes; {} pivoted, {} computable messages; every delivered message covered)", p, fam.name, fam.descr, cfg, ir.len(), cert.pivoted.len(), cert.computable.len())}));
+            run.count(&format!("gen:family:{}", fam.name));
+            k += 1;
+            in_cur += 1;
+            if in_cur == chunk {
+                files.push(std::mem::take(&mut cur));
+                in_cur = 0;
+            }
+        }
+    }
+    if in_cur > 0 {
+        files.push(cur);
+    }
+    let mut imports = String::new();
+    for (i, body) in files.iter().enumerate() {
+        std::fs::write(format!("{}/C03_{}.lean", out_dir, i), format!("{}{}end CCV.Generated.C03\n", header, body)).expect("write");
+        imports += &format!("import CCV.Generated.C03_{}\n", i);
+    }
+    for i in files.len()..400 {
+        let _ = std::fs::remove_file(format!("{}/C03_{}.lean", out_dir, i));
+    }
+    std::fs::write(format!("{}/C03.lean", out_dir), imports).expect("write");
+    std::fs::write(format!("{}/C03_obligations.json", out_dir), serde_json::to_string_pretty(&obligations).unwrap()).expect("write");
+    println!("generated {} observer views in {} files", k, files.len());
 }
